@@ -39,6 +39,8 @@ CONSTANTS
   OpLevels,    \* sequence of operation sets, one per program position (<< >>: use OpSet everywhere)
   EnvDirs,     \* << >> or, per environment e, <<E, a, b>>: e is base environment E with the terminals
                \* seeded along direction a (variable s) and direction b (variable t); jets variant only
+  SeedTerm,    \* "" or the name of a terminal that the environments seed along its own components
+               \* (diff with respect to a coefficient)
   NDir,        \* number of directions (spatial dimension, or number of components of the variable)
   ReplMaps,    \* sequence of [src |-> terminal position, sub |-> Seq(env)]: replacement maps (C21):
                \* in environment sub[e] the terminal src has the value its image has in e (0: none)
@@ -427,7 +429,7 @@ DoSeedVariable(a) == LET x == store[a] IN
                                      IF FlatPos(x.sh, c) = EnvDirs[e][3] THEN C1[1] ELSE C0[1])))
 \* diff(f, v)[cf, cv] = derivative of f with respect to component cv of the value of the variable v
 DoDiff(a, v) == LET x == store[a]  y == store[v] IN
-  /\ HasDirs /\ IsVal(x) /\ y.op = "seedvar"
+  /\ HasDirs /\ IsVal(x) /\ (y.op = "seedvar" \/ (y.op = "term" /\ y.nm = SeedTerm /\ SeedTerm # ""))
   /\ Push(Mk("diff", <<a, v>>, << >>, x.sh \o y.sh, x.fi,
              LAMBDA e, bd, c : DirDeriv(x, e, bd, SubSeq(c, 1, Rank(x)), FlatPos(y.sh, SubSeq(c, Rank(x) + 1, Len(c))))))
 
